@@ -120,7 +120,15 @@ class Engine(ExprMixin, StmtMixin, CallMixin):
                         return st.heap[(v.id, 'val')]
                     return v
                 if base.kind == 'rec' and (base.id, attr) in st.heap:
-                    return st.heap[(base.id, attr)][1]
+                    v = st.heap[(base.id, attr)][1]
+                    if isinstance(v, RefV) and v.kind == 'list':
+                        return eng.deref_for_contract(v, st)
+                    return v
+            if isinstance(base, RefV) and base.kind == 'rec':
+                # a field the path never assigned: an unknown value (nothing can be proved about it)
+                return OpaqueV(fresh('absent_' + attr, USort), 'absent field ' + attr)
+            if isinstance(base, (OpaqueV, NoneV)):
+                return OpaqueV(fresh('absent_' + attr, USort), 'field of unknown')
             raise Unsupported('contract attribute .%s of %r' % (attr, base))
 
         def has(pe, rec, key):
@@ -290,6 +298,8 @@ class Engine(ExprMixin, StmtMixin, CallMixin):
         for f, fs in fields.items():
             v, s = self.fresh_of_sort(fs, '%s.%s' % (name, f), s)
             s.heap[(rid, f)] = v
+            if isinstance(v, RefV):
+                self.tracked_refs.add(v.id)
         self.tracked_refs.add(rid)
         return RefV(rid, 'obj', ch), s
 
